@@ -9,6 +9,7 @@ import (
 	"path/filepath"
 	"regexp"
 	"runtime"
+	"sort"
 	"strings"
 	"time"
 
@@ -91,9 +92,10 @@ func c07File(kind string, n int, seed int64) []string {
 			if h, ok := hot[len(lines)]; ok {
 				reps = h
 			}
-			// around the bulk loader's bucket cuts every key holds several values, so that whatever the exact
-			// sorted index of the cut is, it falls inside a run of equal keys
-			if n := len(lines); reps == 1 && ((n > 27000 && n < 33000) || (n > 57000 && n < 63000)) {
+			// in the big files most keys hold several values, so that wherever the bulk loader cuts its sorted
+			// buckets (every 30 000 values) the cut falls inside a run of equal keys with high probability;
+			// the evidence counts how many cuts really did (cutsInsideRuns)
+			if reps == 1 && n >= 30000 && i%6 != 0 {
 				reps = 5 + rng.Intn(4)
 				for j := 0; j < reps; j++ {
 					lines = append(lines, fmt.Sprintf("+%s,192.0.%d.%d,%d", name, rng.Intn(256), rng.Intn(256), 1+rng.Intn(5000)))
@@ -242,6 +244,9 @@ func c07Check(lines []string, s c07Setting) (msg string, inconclusive string, ke
 	if err != nil {
 		return "compilation of a well-formed file failed: " + err.Error(), "", 0
 	}
+	if !s.CDB && s.RDB.Builder {
+		c07CutsInRuns += cutsInsideRuns(ref, 30000)
+	}
 	var got harness.Dump
 	if s.CDB {
 		got, err = harness.DumpCDB(path)
@@ -255,6 +260,29 @@ func c07Check(lines []string, s c07Setting) (msg string, inconclusive string, ke
 		return "compiled database differs from the codec's records: " + d, "", len(ref)
 	}
 	return "", "", len(ref)
+}
+
+var c07CutsInRuns int
+
+// cutsInsideRuns counts the multiples of step (sorted value index) that fall strictly inside a run of equal keys.
+func cutsInsideRuns(ref harness.Dump, step int) int {
+	keys := make([]string, 0, len(ref))
+	for k := range ref {
+		keys = append(keys, k)
+	}
+	sort.Strings(keys)
+	n, idx, next := 0, 0, step
+	for _, k := range keys {
+		c := len(ref[k])
+		for next < idx+c {
+			if next > idx {
+				n++
+			}
+			next += step
+		}
+		idx += c
+	}
+	return n
 }
 
 var c07BadLines = []string{"Xbad.example.com,192.0.2.1", "+bad.example.com,192.0.2.1,300,,\\q", "%ab,300.1.2.3/8,Ma", "%\\q,10.0.0.0/8", "Bbad.example.com,.,300,,1,port=x"}
@@ -370,6 +398,7 @@ func runC07(r *report.Run) {
 			break
 		}
 	}
+	r.Count("builder_bucket_cuts_inside_a_run_of_equal_keys", int64(c07CutsInRuns))
 	r.Sample(map[string]interface{}{"settings": c07Settings})
 	if r.Thorough() {
 		res, err := runChild(true, "c07race", []string{fmt.Sprint(r.Seed)}, 40*time.Minute)
